@@ -132,3 +132,20 @@ Proof.
       destruct (flip_bit_byte c5 b H5 Hb) as [G1 G2].
       eapply length_altered_rejected; [exact He | | | | |]; try assumption. congruence.
 Qed.
+
+(* ---------- the record determines the row: nothing is folded together on the way in ---------- *)
+Theorem encode_injective ts ts' row row' r :
+  encode_row ts row = Ok r -> encode_row ts' row' = Ok r -> row = row'.
+Proof.
+  intros H1 H2. apply encode_row_inv in H1. apply encode_row_inv in H2.
+  destruct H1 as (E1 & _ & W1 & D1). destruct H2 as (E2 & _ & W2 & D2).
+  assert (P : pack (MArr row) = pack (MArr row')).
+  { rewrite E1 in E2. unfold record in E2. apply (f_equal (skipn 14)) in E2. rewrite !app_assoc in E2.
+    rewrite !skipn_exact in E2 by (rewrite !app_length, !be_length; reflexivity). exact E2. }
+  pose proof enc_limit_le_dec_limit as Hl. unfold enc_limit in Hl.
+  assert (U1 : unpack dec_fuel (pack (MArr row) ++ []) = Some (MArr row, [])).
+  { apply unpack_pack; [exact W1|]. unfold dec_fuel. pose proof (vdepth_cdepth (MArr row)) as Hv. lia. }
+  assert (U2 : unpack dec_fuel (pack (MArr row') ++ []) = Some (MArr row', [])).
+  { apply unpack_pack; [exact W2|]. unfold dec_fuel. pose proof (vdepth_cdepth (MArr row')) as Hv. lia. }
+  rewrite P in U1. rewrite U1 in U2. congruence.
+Qed.
